@@ -36,3 +36,22 @@ func (c *PointerCodec) Write(w *WriteBuf, p unsafe.Pointer) {
 	}
 	c.Codec.Write(w, pp)
 }
+
+// nilSafePointerCodec is the PointerCodec used for struct fields. It differs in
+// how it writes a nil pointer that is not wrapped in a union (pointers to
+// slices and maps have plain array and map schemas, which cannot carry a
+// null): it writes the zero value of the pointed-to type, e.g. an empty array,
+// where PointerCodec would write nothing at all and corrupt the record.
+type nilSafePointerCodec struct {
+	PointerCodec
+	// zero points to a zero value of the pointed-to type. It is only read.
+	zero unsafe.Pointer
+}
+
+func (c *nilSafePointerCodec) Write(w *WriteBuf, p unsafe.Pointer) {
+	pp := *(*unsafe.Pointer)(p)
+	if pp == nil {
+		pp = c.zero
+	}
+	c.Codec.Write(w, pp)
+}
